@@ -122,6 +122,15 @@ def d1(cx: Cx, ob: Ob) -> None:
                 if "default" in kw or "cls" in kw:
                     ob.undecide("custom JSON encoder")
     if not found:
+        for c, ev, ctx in ws.calls("_record_to_dict"):
+            if ctx.loops and c[2][:1] == (ctx.loops[-1].a,):
+                found = True
+                ob.site(f"{where(w, ev.line)} {w.qualname}", "loop: " + show(c)[:50])
+                if ctx.loops[-1].b != ("attr", conv, "records"):
+                    ob.violate(w.qualname, where(w, ev.line), f"write_extended_prefix_map writes `{show(ctx.loops[-1].b)[:40]}`, not converter.records", detail="source")
+                if ws.must_guards(ev):
+                    ob.violate(w.qualname, where(w, ev.line), "write_extended_prefix_map filters the records it writes", detail="filter")
+    if not found:
         ob.undecide("write_extended_prefix_map does not map _record_to_dict over the records")
 
 
@@ -141,11 +150,12 @@ def d2(cx: Cx, ob: Ob) -> None:
             if t != ("attr", rec, "uri_prefix"):
                 ob.violate(gt.qualname, where(gt, line), f"plain JSON-LD term is `{show(t)[:40]}`, not the record's uri_prefix", detail="plain-term")
         else:
-            d = t[4] if op(t) == "new" else t
-            if op(d) != "dict":
+            from ..rules import dict_items
+
+            items = dict_items(gs, t)
+            if items is None:
                 ob.undecide("expanded term definition is not a dict display")
                 continue
-            items = {k[1]: v for k, v in d[1] if k is not None and is_const(k)}
             for k in items:
                 if k not in reader_consts:
                     ob.violate(gt.qualname, where(gt, line), f"the writer emits key '{k}', which from_jsonld does not read", detail=f"key:{k}")
@@ -164,35 +174,67 @@ def d2(cx: Cx, ob: Ob) -> None:
         if op(d) != "dict" or len(d[1]) != 1 or not is_const(d[1][0][0], "@context"):
             ob.violate(fn.qualname, fn.where, f"_get_jsonld_context returns `{show(t)[:50]}`, not {{'@context': ...}}", detail="envelope")
     canon = syn = False
+    unknown_writes = False
+    TERM = ("func", f"{API}._get_expanded_term")
+
+    def term_ok(val, r) -> bool:
+        return op(val) == "call" and val[1] == TERM and val[2][:1] == (r,) and dict(val[3]).get("expand") == ("param", "expand")
+
+    def flag_of(conds) -> bool | None:
+        for c, pol in conds:
+            if c == ("param", "include_synonyms"):
+                return pol
+        return None
+
+    writes = []  # (key term, value term, record term, event, ctx, must-guards)
     for ev, ctx in s.walk():
-        if ev.kind != "store" or op(ev.a) != "item":
-            continue
-        key, val = ev.a[2], ev.b
-        conds = s.must_guards(ev)
         recs_loop = ctx.loops[0] if ctx.loops else None
+        if ev.kind == "store" and op(ev.a) == "item" and op(ev.a[1]) == "new":
+            writes.append((ev.a[2], ev.b, recs_loop, ev, ctx))
+        elif ev.kind == "expr" and op(ev.a) == "call" and callee_name(ev.a) == "update" and op(ev.a[1]) == "attr" and op(ev.a[1][1]) == "new" and ev.a[2]:
+            arg = ev.a[2][0]
+            if op(arg) == "call" and arg[1] == ("attr", ("builtin", "dict"), "fromkeys") and len(arg[2]) == 2:
+                keys, val = arg[2]
+                kd = keys[4] if op(keys) == "new" else keys
+                if op(kd) in ("list", "tuple"):
+                    for k in kd[1]:
+                        writes.append((k, val, recs_loop, ev, ctx))
+                    continue
+            unknown_writes = True
+    per_flag: dict = {}
+    for key, val, recs_loop, ev, ctx in writes:
         if recs_loop is None or recs_loop.b != ("attr", conv, "records"):
             ob.violate(fn.qualname, where(fn, ev.line), "context entries are not produced by a loop over converter.records", detail="source")
             continue
         r = recs_loop.a
-        term_ok = op(val) == "call" and val[1] == ("func", f"{API}._get_expanded_term") and val[2][:1] == (r,) and dict(val[3]).get("expand") == ("param", "expand")
+        flag = flag_of([(g.a, g.b) for g in ctx.guards if g.kind == "guard"])
+        kind = None
         if key == ("attr", r, "prefix"):
-            canon = True
-            ob.site(f"{where(fn, ev.line)} {fn.qualname}", "context[record.prefix] = term")
-            if conds:
-                ob.violate(fn.qualname, where(fn, ev.line), "the canonical prefix is written only conditionally", detail="canonical-conditional")
+            kind = "canon"
         elif len(ctx.loops) == 2 and ctx.loops[1].b == ("attr", r, "prefix_synonyms") and key == ctx.loops[1].a:
-            syn = True
-            ob.site(f"{where(fn, ev.line)} {fn.qualname}", "context[synonym] = term if include_synonyms")
-            if conds != ((("param", "include_synonyms"), True),):
-                ob.violate(fn.qualname, where(fn, ev.line), "prefix synonyms are not written exactly when include_synonyms is set", detail="synonym-guard")
-        else:
+            kind = "syn"
+        elif key == ("star", ("attr", r, "prefix_synonyms")):
+            kind = "syn"
+        if kind is None:
             ob.violate(fn.qualname, where(fn, ev.line), f"context key `{show(key)[:40]}` is neither the canonical prefix nor a prefix synonym", detail="key-role")
-        if not term_ok:
+            continue
+        per_flag.setdefault(kind, set()).add(flag)
+        ob.site(f"{where(fn, ev.line)} {fn.qualname}", f"context[{'record.prefix' if kind == 'canon' else 'synonym'}] = term (include_synonyms={flag})")
+        if not term_ok(val, r):
             ob.violate(fn.qualname, where(fn, ev.line), f"context value `{show(val)[:50]}` is not the record's term definition", detail="value-role")
-    if not canon:
-        ob.violate(fn.qualname, fn.where, "the JSON-LD writer never writes canonical prefixes", detail="no-canonical")
-    if not syn:
-        ob.violate(fn.qualname, fn.where, "the JSON-LD writer never writes prefix synonyms (include_synonyms ignored)", detail="no-synonyms")
+    canon = "canon" in per_flag
+    syn = "syn" in per_flag
+    if canon and not (None in per_flag["canon"] or {True, False} <= per_flag["canon"]):
+        ob.violate(fn.qualname, fn.where, "the canonical prefix is written only conditionally", detail="canonical-conditional")
+    if syn and per_flag["syn"] != {True}:
+        ob.violate(fn.qualname, fn.where, "prefix synonyms are not written exactly when include_synonyms is set", detail="synonym-guard")
+    if unknown_writes and not (canon and syn):
+        ob.undecide("_get_jsonld_context updates the context in an unrecognised way")
+    else:
+        if not canon:
+            ob.violate(fn.qualname, fn.where, "the JSON-LD writer never writes canonical prefixes", detail="no-canonical")
+        if not syn:
+            ob.violate(fn.qualname, fn.where, "the JSON-LD writer never writes prefix synonyms (include_synonyms ignored)", detail="no-synonyms")
     w = cx.fn(f"{API}.write_jsonld_context", ob.id)
     ws = cx.summary(w, ob.id)
     calls = [c for c, _, _ in ws.calls("_get_jsonld_context")]
@@ -231,37 +273,100 @@ def d3(cx: Cx, ob: Ob) -> None:
         ob.violate(line_fn.qualname, line_fn.where, f"from_shacl reads sh:{t}, which the SHACL writer never writes", detail=f"reader-only:{t}")
     ws = cx.summary(w, ob.id)
     conv = ("param", w.params[0].name)
-    canon = syn = False
-    for c, ev, ctx in ws.calls("_get_shacl_line"):
-        lp = ctx.loops[0] if ctx.loops else None
-        if lp is None or lp.b != ("attr", conv, "records"):
-            ob.violate(w.qualname, where(w, ev.line), "SHACL lines are not produced by a loop over converter.records", detail="source")
-            continue
-        r = lp.a
+    kinds: dict = {}
+    unrecognised = False
+    LINE = ("func", f"{API}._get_shacl_line")
+
+    def roles(c, r, line):
         args = list(c[2]) + [None] * 3
         kw = dict(c[3])
-        p, u, pat = args[0], args[1] or kw.get("uri_prefix"), args[2] or kw.get("pattern")
-        conds = ws.must_guards(ev)
-        if p == ("attr", r, "prefix"):
-            canon = True
-            ob.site(f"{where(w, ev.line)} {w.qualname}", "canonical line")
-            if conds:
-                ob.violate(w.qualname, where(w, ev.line), "the canonical SHACL line is written only conditionally", detail="canonical-conditional")
-        elif len(ctx.loops) == 2 and ctx.loops[1].b == ("attr", r, "prefix_synonyms") and p == ctx.loops[1].a:
-            syn = True
-            ob.site(f"{where(w, ev.line)} {w.qualname}", "synonym line")
-            if conds != ((("param", "include_synonyms"), True),):
-                ob.violate(w.qualname, where(w, ev.line), "synonym lines are not written exactly when include_synonyms is set", detail="synonym-guard")
-        else:
-            ob.violate(w.qualname, where(w, ev.line), f"SHACL line for `{show(p)[:40]}`: neither canonical prefix nor synonym", detail="key-role")
+        u, pat = args[1] or kw.get("uri_prefix"), args[2] or kw.get("pattern")
         if u != ("attr", r, "uri_prefix"):
-            ob.violate(w.qualname, where(w, ev.line), f"sh:namespace is written from `{show(u)[:40]}`, not record.uri_prefix", detail="namespace-role")
+            ob.violate(w.qualname, where(w, line), f"sh:namespace is written from `{show(u)[:40]}`, not record.uri_prefix", detail="namespace-role")
         if pat != ("attr", r, "pattern"):
-            ob.violate(w.qualname, where(w, ev.line), f"sh:pattern is written from `{show(pat)[:40] if pat else 'nothing'}`, not record.pattern", detail="pattern-role")
-    if not canon:
-        ob.violate(w.qualname, w.where, "write_shacl never writes the canonical prefixes", detail="no-canonical")
-    if not syn:
-        ob.violate(w.qualname, w.where, "write_shacl never writes prefix synonyms (include_synonyms ignored)", detail="no-synonyms")
+            ob.violate(w.qualname, where(w, line), f"sh:pattern is written from `{show(pat)[:40] if pat else 'nothing'}`, not record.pattern", detail="pattern-role")
+
+    def classify(p, r, loops):
+        if p == ("attr", r, "prefix"):
+            return "canon"
+        if len(loops) == 2 and loops[1].b == ("attr", r, "prefix_synonyms") and p == loops[1].a:
+            return "syn"
+        return None
+
+    seen_calls = set()
+    for c, ev, ctx in ws.calls("_get_shacl_line"):
+        if c[1] != LINE or (ev.line, c) in seen_calls:
+            continue
+        seen_calls.add((ev.line, c))
+        lp = ctx.loops[0] if ctx.loops else None
+        if lp is not None and lp.b == ("attr", conv, "records"):
+            r = lp.a
+            p = c[2][0] if c[2] else dict(c[3]).get("prefix")
+            kind = classify(p, r, ctx.loops)
+            flag = None
+            for g in ctx.guards:
+                if g.kind == "guard" and g.a == ("param", "include_synonyms"):
+                    flag = g.b
+            if kind is None:
+                ob.violate(w.qualname, where(w, ev.line), f"SHACL line for `{show(p)[:40]}`: neither canonical prefix nor synonym", detail="key-role")
+                continue
+            ob.site(f"{where(w, ev.line)} {w.qualname}", f"{'canonical' if kind == 'canon' else 'synonym'} line (include_synonyms={flag})")
+            kinds.setdefault(kind, set()).add(flag)
+            roles(c, r, ev.line)
+            continue
+        # comprehension form: for record in converter.records for prefix in [record.prefix, *synonyms...]
+        comp = None
+        for t, e2, _ in ws.all_terms():
+            if e2.line != ev.line:
+                continue
+            for x in subterms(t):
+                if op(x) == "comp" and any(y == c for y in subterms(x[2])):
+                    comp = x
+        if comp is None or not comp[3] or comp[3][0][1] != ("attr", conv, "records"):
+            unrecognised = True
+            continue
+        r = comp[3][0][0]
+        p = c[2][0] if c[2] else None
+        if any(g[2] for g in comp[3]):
+            ob.violate(w.qualname, where(w, ev.line), "SHACL lines are filtered", detail="filter")
+        if len(comp[3]) == 1 and p == ("attr", r, "prefix"):
+            kinds.setdefault("canon", set()).add(None)
+            roles(c, r, ev.line)
+            ob.site(f"{where(w, ev.line)} {w.qualname}", "canonical line (comprehension)")
+            continue
+        if len(comp[3]) == 2 and p == comp[3][1][0] and op(comp[3][1][1]) in ("list", "tuple"):
+            roles(c, r, ev.line)
+            for e in comp[3][1][1][1]:
+                if e == ("attr", r, "prefix"):
+                    kinds.setdefault("canon", set()).add(None)
+                elif op(e) == "star":
+                    x = e[1]
+                    empty = lambda z: op(z) in ("list", "tuple") and not z[1]  # noqa: E731
+                    if x == ("attr", r, "prefix_synonyms"):
+                        kinds.setdefault("syn", set()).add(None)
+                    elif op(x) == "ifexp" and x[1] == ("param", "include_synonyms") and x[2] == ("attr", r, "prefix_synonyms") and empty(x[3]):
+                        kinds.setdefault("syn", set()).add(True)
+                    elif op(x) == "ifexp" and x[1] == ("not", ("param", "include_synonyms")) and x[3] == ("attr", r, "prefix_synonyms") and empty(x[2]):
+                        kinds.setdefault("syn", set()).add(True)
+                    else:
+                        unrecognised = True
+                else:
+                    unrecognised = True
+            ob.site(f"{where(w, ev.line)} {w.qualname}", "canonical + synonym lines (comprehension)")
+            continue
+        unrecognised = True
+    canon, syn = "canon" in kinds, "syn" in kinds
+    if canon and not (None in kinds["canon"] or {True, False} <= kinds["canon"]):
+        ob.violate(w.qualname, w.where, "the canonical SHACL line is written only conditionally", detail="canonical-conditional")
+    if syn and kinds["syn"] != {True}:
+        ob.violate(w.qualname, w.where, "synonym lines are not written exactly when include_synonyms is set", detail="synonym-guard")
+    if unrecognised and not (canon and syn):
+        ob.undecide("write_shacl produces its lines in an unrecognised way")
+    else:
+        if not canon:
+            ob.violate(w.qualname, w.where, "write_shacl never writes the canonical prefixes", detail="no-canonical")
+        if not syn:
+            ob.violate(w.qualname, w.where, "write_shacl never writes prefix synonyms (include_synonyms ignored)", detail="no-synonyms")
 
 
 def _escaped(t) -> bool:
@@ -324,7 +429,7 @@ def d4(cx: Cx, ob: Ob) -> None:
                 )
 
 
-@obligation("C14-D5", "TSV: header row first, then (record.prefix, record.uri_prefix) in that column order for every record, tab-delimited", floor=2)
+@obligation("C14-D5", "TSV: header row first, then (record.prefix, record.uri_prefix) in that column order for every record, tab-delimited", floor=1)
 def d5(cx: Cx, ob: Ob) -> None:
     fn = cx.fn(f"{API}.write_tsv", ob.id)
     s = cx.summary(fn, ob.id)
@@ -340,7 +445,9 @@ def d5(cx: Cx, ob: Ob) -> None:
     rows.sort(key=lambda x: x[1].line)
     header = [x for x in rows if not x[2].loops]
     body = [x for x in rows if x[2].loops]
-    if not header or header[0][0][2] != (("param", "header"),):
+    if not header and any(op(c[2][0]) in ("list", "new") for c, _, _ in s.calls("writerows") if c[2]):
+        pass  # decided below together with the rows
+    elif not header or header[0][0][2] != (("param", "header"),):
         ob.violate(fn.qualname, fn.where, "write_tsv does not write the header row first", detail="header")
     else:
         ob.site(f"{where(fn, header[0][1].line)} {fn.qualname}", "writerow(header)")
@@ -350,6 +457,12 @@ def d5(cx: Cx, ob: Ob) -> None:
     for c, ev, ctx in bulk[:1]:
         src = c[2][0] if c[2] else None
         ob.site(f"{where(fn, ev.line)} {fn.qualname}", show(c)[:70])
+        if op(src) == "new" and op(src[4]) == "list":
+            src = src[4]
+        if op(src) == "list" and len(src[1]) == 2 and src[1][0] == ("param", "header") and op(src[1][1]) == "star":
+            # header and data rows written in one call, header first
+            header = [(c, ev, ctx)]
+            src = src[1][1][1]
         if op(src) == "comp" and len(src[3]) == 1:
             tgt, it, ifs = src[3][0]
             row = src[2]
